@@ -1335,7 +1335,8 @@ async fn run_scenario(sc: &Scenario, sink: &Sink) {
                 sink.emit(json!({"e":"cmd","kind":"decode"}));
                 match &mut server {
                     ServerH::Rust(Some(h)) => {
-                        let _ = tokio::time::timeout(Duration::from_secs(2), h.set_decode_level(decode_level(&st.level))).await;
+                        // (a server task that no longer takes commands must not hold the script up for long)
+                        let _ = tokio::time::timeout(Duration::from_millis(400), h.set_decode_level(decode_level(&st.level))).await;
                     }
                     ServerH::Cabi(s, _) => {
                         let (s, lv) = (*s as usize, st.level.clone());
